@@ -132,6 +132,11 @@ func AssembleFile(ctx context.Context, name string, idx Index, s Store, seeds []
 		}
 	}
 
+	// Nothing to assemble for an empty index, the (truncated) empty file is the result
+	if len(idx.Chunks) == 0 {
+		return stats, nil
+	}
+
 	// Determine the blocksize of the target file which is required for reflinking
 	blocksize := blocksizeOfFile(name)
 
